@@ -39,13 +39,17 @@ RULE = ("(a) pairs (t1, t2) of tree-shaped nests of list/tuple/dict/set/frozense
         "of an item, delete, move, replace, dict/set edits) at random depths; a case = (t1, t2, knob setting); non-trivial = t1 or t2 "
         "contains a list/tuple with >= 2 items; distinct = distinct (canonical t1, canonical t2, knobs); (b) direct oracle only: t2 built from PIECES OF t1 "
         "BY REFERENCE (an element of t1 wrapped in a new dict/list, sub-lists re-used in another order, t1 itself as an item, an ancestor as a value): "
-        "verdict = specification on the values, = verdict for a deep copy, same for all knobs")
+        "verdict = specification on the values, = verdict for a deep copy, same for all knobs; (c) direct oracle only: t1 in which ONE list/dict/tuple OBJECT "
+        "occurs several times inside one element of an order-ignored list ([x,[x,a]], [x,x,a], under dict values, in tuples, the () singleton), t2 a fresh unshared value "
+        "(same value shuffled / the unshared copy itself / one occurrence of x less): verdict = specification on the values = verdict for the unshared copy of t1, same for all knobs")
 TRUSTED = [
     "the pairing chosen by _get_most_in_common_pairs_in_iterables is an oracle of the model (any list of index pairs; the theorems hold for every oracle); "
     "the harness feeds the recorded pairings and checks them for validity",
     "item hashes: hash_pure in diff_io (the model of the main theorems) and b06's hash_memo on the run-wide table in diff_io_m (DiffIO/DiffIOMemo.v), "
     "both tied to deephash.py by C06/C07's correspondence; inputs with ==-aliasing atoms (1 / 1.0 / True) are compared against diff_io_m, which predicts finding K2; "
-    "C05_memo_transparent_partial + C05_traversal_order_irrelevant connect the two models where nothing aliases",
+    "C05_memo_transparent_partial + C05_traversal_order_irrelevant connect the two models where nothing aliases; with aliasing atoms (no bool == a non-bool) "
+    "C05_shared_table_run_partial / C05_verdict_shared_table_partial say what diff_io_m computes (equality modulo == below the first list level), and the direct "
+    "oracle checks exactly that relation on the implementation for every aliasing pair inside the guard (cb_canon, written independently of the Coq side)",
     "hypotheses on the hasher H (outputs non-empty and free of , ; : | { }; injective) stand for SHA-256 hexdigest being collision-free: premises of "
     "C05_verdict_partial / C05_knob_independence / C05_different_hash_nonempty, not axioms; satisfiable (unary_hash, proved); C05_equal_gives_empty needs none",
     "max_diffs, custom operators, exclude/include paths, numpy, custom objects, cyclic/shared containers are outside the model",
@@ -257,6 +261,45 @@ def alias_blind(v, rep):
     return at(v)
 
 
+def bool_sep(*vals):
+    """no bool is == to a non-bool number anywhere in vals (the guard bool_sep2 of C05_verdict_shared_table_partial)"""
+    atoms = []
+
+    def walk(v):
+        if isinstance(v, (list, tuple)):
+            for x in v:
+                walk(x)
+        elif isinstance(v, dict):
+            for k, x in v.items():
+                atoms.append(k)
+                walk(x)
+        elif isinstance(v, (set, frozenset)):
+            atoms.extend(v)
+        else:
+            atoms.append(v)
+    for v in vals:
+        walk(v)
+    bools = {a for a in atoms if isinstance(a, bool)}
+    others = [a for a in atoms if isinstance(a, (int, float)) and not isinstance(a, bool)]
+    return not any(b == n for b in bools for n in others)
+
+
+def cb_canon(v, rep):
+    """the relation of C05_verdict_shared_table_partial, written independently of the Coq side: dict keys and
+    everything below the first list / tuple / set are taken modulo Python == (alias_blind), a scalar reached
+    through dicts only keeps its type"""
+    def at(a):
+        if isinstance(a, (bool, int, float)):
+            return ("num", repr(float(a)))
+        return _tatom(a)
+    if isinstance(v, dict):
+        return ("D", frozenset((at(k), cb_canon(x, rep)) for k, x in v.items()
+                               if not (isinstance(k, str) and k.startswith("__"))))
+    if isinstance(v, (list, tuple, set, frozenset)):
+        return alias_blind(v, rep)
+    return _tatom(v)
+
+
 def tag_blind(v, rep):
     """spec_canon after identifying every non-string scalar / empty container with
     the str that spells its DeepHash serialisation (finding K1)"""
@@ -312,6 +355,12 @@ def k1_match(case):
 
 
 def k2_match(case):
+    if "verdicts" in case:
+        # the verdict depends on the pairing knobs: K2 only where a bool is == a non-bool ([{True:'a'}] vs [{1:'a'}]:
+        # BoolObj at the top level of a table lookup, == as a dict key); elsewhere C05_knob_independence_shared_table_partial
+        # says it cannot happen
+        return (case.get("alias") is True and case.get("bool_sep") is False
+                and case.get("spec_equal") is False and case.get("alias_blind_equal") is True)
     return (case.get("impl_empty") is True and case.get("spec_equal") is False
             and case.get("alias") is True and case.get("alias_blind_equal") is True)
 
@@ -334,6 +383,8 @@ def oracle_case(t1, t2, kn, got):
             "alias": V.contains_alias(t1, t2), "tag_like": has_tag_like(t1, t2)}
     if case["alias"]:
         case["alias_blind_equal"] = alias_blind(t1, rep) == alias_blind(t2, rep)
+        case["bool_sep"] = bool_sep(t1, t2)
+        case["cb_equal"] = cb_canon(t1, rep) == cb_canon(t2, rep)
     if case["tag_like"]:
         case["tag_blind_equal"] = tag_blind(t1, rep) == tag_blind(t2, rep)
     return exp, case
@@ -345,6 +396,15 @@ def check_verdict(ctx, t1, t2, kn, got):
     if isinstance(got, Exception):
         ctx.fail(case, "DeepDiff(ignore_order=True) raised %s" % type(got).__name__)
         return False
+    if case["alias"] and case["bool_sep"] and not case["tag_like"]:
+        # C05_verdict_shared_table_partial observed on the implementation: with ==-aliasing atoms (no bool == a non-bool)
+        # the result is empty EXACTLY when the inputs are equal modulo == below the first list level
+        ctx.count("oracle:alias_characterisation_checked")
+        if got != case["cb_equal"]:
+            ctx.fail(dict(case, characterisation="violated"),
+                     "aliasing input: ignore_order result is %s but the inputs are %s modulo Python == (C05_verdict_shared_table_partial predicts the opposite)" % (
+                         "empty" if got else "non-empty", "equal" if case["cb_equal"] else "different"))
+            return False
     if got != exp:
         ctx.fail(case, "ignore_order result is %s but the inputs are %s as nested %s" % (
             "empty" if got else "non-empty", "equal" if exp else "different",
@@ -469,6 +529,24 @@ def big_near_dups(rng, alias=False):
     return [items, [copy.deepcopy(items[0])], rng.choice(STRS)]
 
 
+def debool(v):
+    """bools replaced by the floats they are == to: keeps the int/float aliasing, restores the guard bool_sep"""
+    if isinstance(v, bool):
+        return 1.0 if v else 0.0
+    if isinstance(v, list):
+        return [debool(x) for x in v]
+    if isinstance(v, tuple):
+        return tuple(debool(x) for x in v)
+    if isinstance(v, dict):
+        out = {}
+        for k, x in v.items():
+            out.setdefault(debool(k), debool(x))
+        return out
+    if isinstance(v, (set, frozenset)):
+        return type(v)(debool(x) for x in v)
+    return v
+
+
 def gen_pair(rng, alias=False, depth=3):
     r = rng.random()
     if r < 0.35:
@@ -527,6 +605,10 @@ ALIAS_FIXED = [
     ([1.0, 1], [1]), ([1, 1.0], [1.0]), ([[1, 2], [1.0, 2]], [[2, 1]]), ([True, 1], [1, True]), ([0, False, 0.0], [0.0]),
     ([(1, "a"), (1.0, "a")], [(True, "a")]), ({"a": [1], "b": [1.0, 2]}, {"b": [2, 1], "a": [1.0]}),
     ([{1: "x"}, {1.0: "x"}], [{True: "x"}]), ([{1, 2}, {1.0, 2.0}], [{2, 1}]), ([[1.0], [1]], [[1], [1.0], [True]]),
+    # the Coq witnesses of the shared-table theorems
+    ([{True: "a"}], [{1: "a"}]), ([{True: "a", "k": [1, 2]}, 5], [5, {1: "a", "k": [2, 1]}]),
+    ([1, [2.0, 3], {2: {5.0, 7}}], [{2.0: {7.0, 5}}, [3.0, 2], 1.0, 1]),
+    ({"x": 1}, {"x": 1.0}), ([{"x": 1}], [{"x": 1.0}]), ([1, 1.0], [1, 1]), ([(1.0, 2)], [(1, 2.0)]), ({1: [1.0]}, {1.0: [1]}),
 ]
 
 # times as list items (direct oracle only; 82f0543: the pairing distance kept no microseconds)
@@ -546,6 +628,7 @@ FIXED_FINDINGS = [
     ([{"x": 1}], [{"x": 1.0}]),
     ([(1, "a")], [(True, "a")]),
     ({1: "a"}, {1.0: "a"}),
+    ([{True: "a"}], [{1: "a"}]),          # K2 where a bool is == an int: the verdict depends on the pairing knobs
 ]
 
 
@@ -633,8 +716,9 @@ def _full_task(args):
     t1r, t2r = args
     t1, t2 = from_repr(t1r), from_repr(t2r)
     out = []
+    alias = V.contains_alias(t1, t2)
     for rep in REPS:
-        for thr in (0, 0.33, 1, 1.0):
+        for thr in ((0.33, 1) if alias else (0, 0.33, 1, 1.0)):        # aliasing pairs: the threshold sweep is done on the alias-free ones
             for kn in (FULL_KNOBS if thr in (0, 0.33) and thr is not True else (FULL_KNOBS[:3] if isinstance(thr, int) else FULL_KNOBS[2:4])):
                 kw = dict(kn, report_repetition=rep, threshold_to_diff_deeper=thr)
                 obs, rec, unmod = run_tree(t1, t2, **kw)
@@ -643,7 +727,6 @@ def _full_task(args):
                     continue
                 tbl, ok = rec
                 paired = sum(len(ji) for _p, ji, _x, _y in tbl)
-                alias = V.contains_alias(t1, t2)
                 out.append((kw, obs, coq_pairs_table(tbl), ok, unmod,
                             (model_expr(t1, t2, rep, thr, tbl, memo=alias), coq_valid_arg(tbl), paired, len(tbl))))
                 if not alias and not kn and thr == 0.33:
@@ -722,7 +805,9 @@ def oracle_grid(ctx, jobs, pool):
         for rep, vs in verdicts.items():
             if len(vs) > 1:
                 ctx.fail({"t1": t1r, "t2": t2r, "report_repetition": rep, "verdicts": sorted(map(repr, vs)),
-                          "alias": V.contains_alias(t1, t2), "tag_like": has_tag_like(t1, t2)},
+                          "alias": V.contains_alias(t1, t2), "tag_like": has_tag_like(t1, t2), "bool_sep": bool_sep(t1, t2),
+                          "spec_equal": spec_canon(t1, rep) == spec_canon(t2, rep),
+                          "alias_blind_equal": alias_blind(t1, rep) == alias_blind(t2, rep)},
                          "the empty/non-empty verdict depends on the pairing knobs")
         for rep in (False, True):
             eq = spec_canon(t1, rep) == spec_canon(t2, rep)
@@ -952,6 +1037,144 @@ def oracle_shared(ctx, pool, n_tasks, per_task):
     ctx.count("shared:pairs", npairs)
 
 
+# ---------------------------------------------------------------------------
+# ONE container object referenced several times INSIDE t1 (direct oracle only)
+# ---------------------------------------------------------------------------
+# YAML anchors, structures built up programmatically, equal tuple constants of one code object and
+# the () singleton all give values in which the same list / dict / tuple OBJECT sits at several
+# positions.  As a VALUE such a t1 is an ordinary nested value; the verdict may not depend on the
+# sharing.  t1 = build_shared(base, recipe): base is a tree [x, a, b], the recipe refers to x
+# ([ "ref", [0] ]) more than once inside ONE element of an order-ignored list, across nesting levels
+# ([x, [x, a]]), as a plain repeat ([x, x, a]), under dict values, inside tuples; t2 is a fresh,
+# unshared, shuffled value: the same value, or the one in which one occurrence of x is dropped.
+
+INNER_X = ["[1, 2]", "['a', 'b']", "{'k': 1}", "(1, 2)", "()", "[[3], 4]", "{'k': [1, 2], 'n': 0}", "[]", "({'u': 1}, 2)"]
+INNER_SHAPES = ["nested_later", "nested_later", "nested_dict", "nested_tuple", "repeat", "repeat", "repeat_deep", "dict_values", "three_levels"]
+INNER_WRAPS = ["list", "list", "list2", "dict", "tuple"]
+INNER_KNOBS = [dict(), dict(max_passes=0), dict(cutoff_intersection_for_pairs=0),
+               dict(cutoff_intersection_for_pairs=1, cutoff_distance_for_pairs=1, cache_size=5000),
+               dict(threshold_to_diff_deeper=0, cache_size=1, max_passes=2)]
+
+
+def unshare(v):
+    """the same value with every container a distinct object (() stays the singleton it is)"""
+    if isinstance(v, list):
+        return [unshare(x) for x in v]
+    if isinstance(v, tuple):
+        return tuple([unshare(x) for x in v])
+    if isinstance(v, dict):
+        return {k: unshare(x) for k, x in v.items()}
+    if isinstance(v, (set, frozenset)):
+        return type(v)(v)
+    return v
+
+
+def gen_inner(rng):
+    """(base repr, recipe of t1, recipe of the value t2 is made from, kind)"""
+    X = ["ref", [0]]
+    xr = rng.choice(INNER_X)
+    a, b = rng.sample([5, 6, 7, "p", "q", None, 2.5], 2)
+    A, B = ["lit", repr(a)], ["lit", repr(b)]
+    shape = rng.choice(INNER_SHAPES)
+    if shape == "nested_later":
+        rec, less = ["list", [X, ["list", [X, A]]]], ["list", [X, ["list", [A]]]]
+    elif shape == "nested_dict":
+        rec, less = ["list", [X, ["dict", [["'k'", X], ["'n'", A]]]]], ["list", [X, ["dict", [["'n'", A]]]]]
+    elif shape == "nested_tuple":
+        rec, less = ["tuple", [X, ["tuple", [A, X]]]], ["tuple", [X, ["tuple", [A]]]]
+    elif shape == "repeat":
+        rec, less = ["list", [X, X, A]], ["list", [X, A]]
+    elif shape == "repeat_deep":
+        rec, less = ["list", [["list", [X, X, A]], B]], ["list", [["list", [X, A]], B]]
+    elif shape == "dict_values":
+        rec, less = ["dict", [["'p'", X], ["'q'", ["list", [X, A]]]]], ["dict", [["'p'", X], ["'q'", ["list", [A]]]]]
+    else:
+        rec, less = ["list", [X, ["list", [A, ["list", [X, B]]]]]], ["list", [X, ["list", [A, ["list", [B]]]]]]
+    pad = [["lit", repr(rng.choice([0, 1, "z", 9, "tail"]))] for _ in range(rng.randint(1, 3))]
+    if rng.random() < 0.3:
+        pad.append(["list", [A, B]])
+
+    def wrap(r, w):
+        items = [r] + pad
+        if w == "list":
+            return ["list", items]
+        if w == "tuple":
+            return ["tuple", items]
+        if w == "list2":
+            return ["list", [["list", items], B]]
+        return ["dict", [["'id'", ["lit", "7"]], ["'rows'", ["list", items]]]]
+    w = rng.choice(INNER_WRAPS)
+    return repr([from_repr(xr), a, b]), wrap(rec, w), wrap(less, w), shape + "/" + w + "/" + xr
+
+
+def inner_case(baser, rec1, t2r, knobs):
+    """[(knobs, verdict with sharing, verdict for the unshared copy of t1, inputs unmodified)]"""
+    out = []
+    for kn in knobs:
+        t1 = build_shared(from_repr(baser), rec1)
+        t2 = unshare(from_repr(t2r))
+        snap = (V.canon(unshare(t1)), V.canon(t2))
+        got = verdict_shared(t1, t2, **kn)
+        unmod = (V.canon(unshare(t1)), V.canon(t2)) == snap
+        ctl = verdict_shared(unshare(t1), unshare(from_repr(t2r)), **kn)
+        out.append((kn, _enc(got), _enc(ctl), unmod))
+    return out
+
+
+def _inner_task(args):
+    seed, n = args
+    rng = random.Random(seed)
+    res = []
+    for _ in range(n):
+        baser, rec1, rec_less, kind = gen_inner(rng)
+        base = from_repr(baser)
+        v1 = unshare(build_shared(base, rec1))
+        variants = [("same", rebuild(v1, rng)), ("self_copy", v1), ("one_occurrence_less", rebuild(unshare(build_shared(base, rec_less)), rng))]
+        for vk, t2 in (variants if rng.random() < 0.5 else rng.sample(variants, 2)):
+            knobs = [dict(k, report_repetition=rp) for k in INNER_KNOBS for rp in REPS] + rng.sample(ALL_KNOBS, 4)
+            res.append((baser, rec1, repr(v1), repr(t2), kind + "/" + vk, inner_case(baser, rec1, repr(t2), knobs)))
+    return res
+
+
+def check_inner(ctx, baser, rec1, t1r, t2r, out):
+    """the property on one (t1 with internal sharing, t2) pair for the evaluated knob settings"""
+    t1v, t2v = from_repr(t1r), from_repr(t2r)
+    verdicts = {}
+    for kn, got, ctl, unmod in out:
+        g = got if isinstance(got, bool) else RuntimeError(got)
+        exp, case = oracle_case(t1v, t2v, kn, g)
+        case.update({"base": baser, "t1_recipe": rec1, "internal": True})
+        ctx.seen(("inner", baser, repr(rec1), t2r, sorted(kn.items())), nontrivial=True)
+        if isinstance(g, Exception):
+            ctx.fail(case, "DeepDiff(ignore_order=True) raised on a t1 that references one container object several times: " + got)
+        elif g != exp:
+            ctx.fail(case, "t1 references one container object several times: ignore_order result is %s but the inputs are %s as nested %s" % (
+                "empty" if g else "non-empty", "equal" if exp else "different", "multisets" if kn.get("report_repetition") else "sets"))
+        elif got != ctl:
+            ctx.fail(dict(case, unshared_verdict=ctl), "the verdict for a t1 that references one container object several times differs from the verdict for the value-identical unshared copy")
+        if not unmod:
+            ctx.fail(case, "DeepDiff(ignore_order=True) modified its inputs (t1 with internal sharing)")
+        verdicts.setdefault(kn.get("report_repetition", False), set()).add(got)
+        ctx.count("inner:empty" if got is True else "inner:nonempty")
+    for rep, vs in verdicts.items():
+        if len(vs) > 1:
+            ctx.fail({"t1": t1r, "t2": t2r, "base": baser, "t1_recipe": rec1, "internal": True, "report_repetition": rep,
+                      "verdicts": sorted(map(repr, vs)), "alias": V.contains_alias(t1v, t2v), "tag_like": has_tag_like(t1v, t2v)},
+                     "t1 references one container object several times: the empty/non-empty verdict depends on the pairing knobs")
+
+
+def oracle_inner(ctx, pool, n_tasks, per_task):
+    seeds = [ctx.rng.randrange(1 << 30) for _ in range(n_tasks)]
+    npairs = 0
+    for res in pool.map(_inner_task, [(sd, per_task) for sd in seeds], chunksize=1):
+        for baser, rec1, t1r, t2r, kind, out in res:
+            npairs += 1
+            ctx.count("inner:" + kind.split("/")[0])
+            ctx.count("inner:t2_" + kind.rsplit("/", 1)[1])
+            check_inner(ctx, baser, rec1, t1r, t2r, out)
+    ctx.count("inner:pairs", npairs)
+
+
 def replay_witnesses(ctx):
     """the Coq _refuted witnesses on the implementation (an exception is a failing input, never a crash of the check)"""
     w = []
@@ -969,6 +1192,23 @@ def replay_witnesses(ctx):
           "[1] vs [1.0] is now reported as different: the memo-threading model (table keyed by ==) is stale")
     probe("C05_verdict_key_alias_refuted({1:'a'} vs {1.0:'a'})", {1: "a"}, {1.0: "a"}, True,
           "{1:'a'} vs {1.0:'a'} is now reported as different: the model (keys matched by ==) is stale")
+    probe("C05_bool_alias_knob_refuted([{True:'a'}] vs [{1:'a'}], paired)", [{True: "a"}], [{1: "a"}], True,
+          "[{True:'a'}] vs [{1:'a'}] is now reported as different with the default knobs: the model (BoolObj in the table, == on dict keys) is stale")
+    probe("C05_bool_alias_knob_refuted([{True:'a'}] vs [{1:'a'}], max_passes=0)", [{True: "a"}], [{1: "a"}], False,
+          "[{True:'a'}] vs [{1:'a'}] is now reported as equal without pairing: the model is stale", max_passes=0)
+    for rp in REPS:
+        probe("C05_alias_family_refuted([{'x':1}] vs [{'x':1.0}], rep=%s)" % rp, [{"x": 1}], [{"x": 1.0}], True,
+              "[{'x':1}] vs [{'x':1.0}] is now reported as different: the memo-threading model is stale", report_repetition=rp)
+        probe("C05_alias_family_refuted([(1,'a')] vs [(True,'a')], rep=%s)" % rp, [(1, "a")], [(True, "a")], True,
+              "[(1,'a')] vs [(True,'a')] is now reported as different: the memo-threading model is stale", report_repetition=rp)
+        probe("C05_verdict_relation_exact({'x':1} vs {'x':1.0}, rep=%s)" % rp, {"x": 1}, {"x": 1.0}, False,
+              "{'x':1} vs {'x':1.0} is now reported as equal: the model (scalars under dicts keep their type) is stale", report_repetition=rp)
+    probe("C05_alias_family_refuted([1,1.0] vs [1,1], report_repetition)", [1, 1.0], [1, 1], True,
+          "[1,1.0] vs [1,1] is now reported as different with report_repetition: the memo-threading model is stale", report_repetition=True)
+    ex1, ex2 = [1, [2.0, 3], {2: {5.0, 7}}], [{2.0: {7.0, 5}}, [3.0, 2], 1.0, 1]
+    probe("C05_shared_table_guards_satisfiable(sets)", ex1, ex2, True, "the aliasing example is no longer equal as nested sets modulo ==")
+    probe("C05_shared_table_guards_satisfiable(multisets)", ex1, ex2, False, "the aliasing example is no longer different as nested multisets",
+          report_repetition=True)
     d = {"a": 1, "b": 2}
     probe("C05_threshold_above_one_refuted({'a':1,'b':2} vs itself, threshold 2)", d, dict(d), False,
           "threshold_to_diff_deeper=2 no longer reports equal dicts as changed", threshold_to_diff_deeper=2)
@@ -994,13 +1234,16 @@ def run(ctx):
     full = list(FIXED_PAIRS) + [(a, b) for a, b, _k in gen[:n_full]]
     # inputs with ==-aliasing atoms: only the memo-threading model describes them
     alias_full = [(a, b) for a, b in FIXED_FINDINGS if V.contains_alias(a, b)] + list(ALIAS_FIXED)
-    while len(alias_full) < (60 if ctx.thorough else 12):
+    n_fixed_alias = len(alias_full)
+    while len(alias_full) < n_fixed_alias + (48 if ctx.thorough else 6):
         a, b, _k = gen_pair(rng, alias=True, depth=rng.choice([2, 3]))
+        if len(alias_full) % 2:
+            a, b = debool(a), debool(b)
         if V.contains_alias(a, b):
             alias_full.append((a, b))
     full += alias_full
     specials = special_pairs(rng, 24 if ctx.thorough else 5)
-    full += [(a, b) for a, b in specials if not V.contains_alias(a, b)]
+    full += specials          # pairs with ==-aliasing atoms are compared with the memo-threading model
     for a, b in full[:2] + full[len(FIXED_PAIRS):len(FIXED_PAIRS) + 2]:
         ctx.sample({"t1": repr(a), "t2": repr(b)})
     with mp.get_context("fork").Pool(core.NCPU) as pool:
@@ -1018,6 +1261,8 @@ def run(ctx):
         n_alias = 0
         while n_alias < (300 if ctx.thorough else 60):
             a, b, _k = gen_pair(rng, alias=True, depth=3)
+            if n_alias % 3:                   # two thirds without bools: inside the guard of C05_verdict_shared_table_partial
+                a, b = debool(a), debool(b)
             if V.contains_alias(a, b):
                 n_alias += 1
                 jobs.append((a, b, rng.sample(ALL_KNOBS, 8)))
@@ -1025,6 +1270,8 @@ def run(ctx):
         oracle_grid(ctx, jobs, pool)
         # --- objects shared across t1 and t2 (t2 built from pieces of t1 by reference)
         oracle_shared(ctx, pool, core.NCPU, 40 if ctx.thorough else 8)
+        # --- one container object at several positions INSIDE t1 (t2 fresh)
+        oracle_inner(ctx, pool, core.NCPU, 60 if ctx.thorough else 10)
     ctx.note("knob_product", {"cutoff_distance_for_pairs": CUT_DIST, "cutoff_intersection_for_pairs": CUT_INTER, "max_passes": MAX_PASSES,
                               "cache_size": CACHE, "threshold_to_diff_deeper": THRS, "report_repetition": REPS, "size": len(ALL_KNOBS)})
 
@@ -1033,6 +1280,14 @@ def replay(ctx, data):
     case = data.get("case", {})
     if "t1" not in case:
         return run(ctx)
+    if case.get("internal"):
+        knobs = [case["knobs"]] if "knobs" in case else [dict(k, report_repetition=rp) for k in INNER_KNOBS for rp in REPS]
+        out = inner_case(case["base"], case["t1_recipe"], case["t2"], knobs)
+        for kn, got, ctl, _u in out:
+            ctx.evaluations += 1
+            print("replay (t1 references one container object several times): t1=%s t2=%s knobs=%r -> shared %s, unshared copy %s" % (case["t1"], case["t2"], kn, got, ctl))
+        check_inner(ctx, case["base"], case["t1_recipe"], case["t1"], case["t2"], out)
+        return
     if case.get("shared"):
         knobs = [case["knobs"]] if "knobs" in case else [dict(k, report_repetition=rp) for k in SHARED_KNOBS for rp in REPS]
         t2v = from_repr(case["t2"])
@@ -1066,5 +1321,8 @@ def replay(ctx, data):
             vs.setdefault(kn["report_repetition"], set()).add(_enc(verdict(t1, t2, **kn)))
         for rep, s in vs.items():
             if len(s) > 1:
-                ctx.fail({"t1": case["t1"], "t2": case["t2"], "report_repetition": rep, "verdicts": sorted(map(repr, s))},
+                ctx.fail({"t1": case["t1"], "t2": case["t2"], "report_repetition": rep, "verdicts": sorted(map(repr, s)),
+                          "alias": V.contains_alias(t1, t2), "tag_like": has_tag_like(t1, t2), "bool_sep": bool_sep(t1, t2),
+                          "spec_equal": spec_canon(t1, rep) == spec_canon(t2, rep),
+                          "alias_blind_equal": alias_blind(t1, rep) == alias_blind(t2, rep)},
                          "the empty/non-empty verdict depends on the pairing knobs")
